@@ -564,7 +564,12 @@ fn main() {
 			Ok(l) => l,
 			Err(_) => break,
 		};
-		let res = run_case(&line);
+		dtarget::reset_event_budget();
+		let mut res = run_case(&line);
+		if dtarget::event_budget_exhausted() {
+			// the recording visitor gave up (see dtarget::spend_event): the case is outside what the harness records
+			res = "(budget)".to_string();
+		}
 		writeln!(out, "{res}").unwrap();
 		out.flush().unwrap();
 	}
